@@ -249,7 +249,7 @@ def one_history(ctx, gid, n_steps, mon):
                     res = [a.IsValid(), a.GetValidUnits(), a.HasCategory()]
                     a.CheckValidity()
             elif k < 0.80:
-                how = r.choice(["copy", "deepcopy", "CreateCopy()", "Copy", "copy-method"])
+                how = r.choice(["copy", "deepcopy", "CreateCopy()", "Copy", "copy-method", "CreateCopy(own value)", "CreateCopy(unit=own unit)", "CreateCopy(unit) of an empty object"])
                 desc = (how, type(a).__name__)
                 if how == "copy":
                     res = copy.copy(a)
@@ -261,6 +261,18 @@ def one_history(ctx, gid, n_steps, mon):
                     res = a.Copy()
                 elif how == "copy-method" and hasattr(a, "copy"):
                     res = a.copy()
+                elif how == "CreateCopy(own value)" and hasattr(a, "CreateCopy"):
+                    res = a.CreateCopy(a.GetAbstractValue())
+                elif how == "CreateCopy(unit=own unit)" and hasattr(a, "CreateCopy") and a.GetCategory() and not a.GetQuantity().IsDerived() and not a.GetQuantity().GetUnknownCaption():
+                    # (a caption cannot travel through unit=: a captioned object is outside this form)
+                    res = a.CreateCopy(unit=a.GetUnit())
+                elif how == "CreateCopy(unit) of an empty object" and hasattr(a, "CreateCopy") and a.GetQuantity().IsEmpty():
+                    # giving a unit to an amount that has none is a copy that keeps the number(s)
+                    res = None
+                    given = a.CreateCopy(unit="m")
+                    ctx.ev()
+                    if type(given) is not type(a) or given.GetUnit() != "m" or snapshot.container(given.GetAbstractValue()) != snapshot.container(a.GetAbstractValue()):
+                        ctx.violation("CreateCopy(unit)-of-an-empty-object:%s" % type(a).__name__, dict(base_case, step=step, original=repr(a)[:100], copied=repr(given)[:100]), replay=dict(base_case, step=step))
                 if res is not None:
                     check_copy(ctx, how, a, res, dict(base_case, step=step, op=list(desc), label=_label(P, a)))
             elif k < 0.87:
